@@ -102,6 +102,18 @@ Theorem C17_listing_relative : forall (d kf : nat) (t : tree) (cwd : loc) (base 
 Proof. exact list_files_ok. Qed.
 Print Assumptions C17_listing_relative.
 
+(* Which directories a listing ENUMERATES (os.scandir): only real directories at or below the resolved
+   prefix -- link-free locations under the canonical root, so by C17_resolve_kernel the kernel lists exactly
+   them.  A directory symlink below the prefix, pointing inward or outward, is never descended into; no
+   foreign directory is scanned and none of its files can be returned (C17_listing_relative). *)
+Theorem C17_listing_scans_inside : forall (d : nat) (t : tree) (cwd : loc) (base prefix : pstr) (ds : list loc) (dd : loc),
+  list_scans d t cwd base prefix = Ok ds -> In dd ds ->
+  exists rb q, realpath d t cwd base = Ok rb /\ resolve d t cwd base prefix = Ok q
+    /\ is_prefix q dd = true /\ is_prefix rb dd = true /\ names dd
+    /\ lstat t dd = Some Dir /\ no_link_prefix t dd = true.
+Proof. exact list_scans_ok. Qed.
+Print Assumptions C17_listing_scans_inside.
+
 (* Every entry point in the table regenerated from the source: its raw string goes through the recorded
    guard, and every location handed to the OS is the guard's result or its parent directory, link-free
    and under the canonical root (os.makedirs may also name an ancestor of the root). *)
@@ -128,7 +140,8 @@ Print Assumptions C17_fuel_sufficient.
 Definition ex_tree : tree :=
   [ ([10], Dir); ([10; 11], Dir); ([10; 11; 3], Dir); ([10; 11; 3; 18], File);
     ([10; 11; 15], Link [0; 10; 13]); ([10; 11; 16], Link [16]); ([10; 11; 17], Link [3]);
-    ([10; 12], Dir); ([10; 12; 14], File); ([10; 13], Dir); ([10; 13; 14], File); ([10; 19], Link [11]) ].
+    ([10; 12], Dir); ([10; 12; 14], File); ([10; 13], Dir); ([10; 13; 14], File); ([10; 19], Link [11]);
+    ([10; 11; 3; 21], Link [0; 10; 13]) ].          (* 21 "ext": /w/tbl/data/ext -> /w/out, an outward DIRECTORY link below data *)
 Definition ex_cwd : loc := [10].
 Definition ex_base : pstr := [0; 10; 11].          (* "/w/tbl" *)
 Definition ex_base_link : pstr := [19].            (* "lnroot", relative to the working directory /w *)
@@ -144,22 +157,26 @@ Proof. vm_compute. repeat split. Qed.
 Print Assumptions C17_legacy_resolver_refuted.
 
 Example C17_nonvacuous :
-  (count_links ex_tree <= 4)%nat
+  (count_links ex_tree <= 5)%nat
   (* accepted: through an inside link, Iceberg-style, through the symlinked root spelled relatively *)
-  /\ resolve 4 ex_tree ex_cwd ex_base [17; 18] = Ok [10; 11; 3; 18]
-  /\ resolve 4 ex_tree ex_cwd ex_base [0; 3; 18] = Ok [10; 11; 3; 18]
-  /\ resolve 4 ex_tree ex_cwd ex_base_link [3; 2; 17; 18] = Ok [10; 11; 3; 18]
+  /\ resolve 5 ex_tree ex_cwd ex_base [17; 18] = Ok [10; 11; 3; 18]
+  /\ resolve 5 ex_tree ex_cwd ex_base [0; 3; 18] = Ok [10; 11; 3; 18]
+  /\ resolve 5 ex_tree ex_cwd ex_base_link [3; 2; 17; 18] = Ok [10; 11; 3; 18]
   (* rejected: outward link, sibling whose name has the root's name as a string prefix, '..' chain *)
-  /\ resolve 4 ex_tree ex_cwd ex_base [15; 14] = Err Security
-  /\ resolve 4 ex_tree ex_cwd ex_base [2; 12; 14] = Err Security
-  /\ resolve 4 ex_tree ex_cwd ex_base_link [0; 3; 2; 2; 2; 10; 13; 14] = Err Security
+  /\ resolve 5 ex_tree ex_cwd ex_base [15; 14] = Err Security
+  /\ resolve 5 ex_tree ex_cwd ex_base [2; 12; 14] = Err Security
+  /\ resolve 5 ex_tree ex_cwd ex_base_link [0; 3; 2; 2; 2; 10; 13; 14] = Err Security
   (* the parquet read path: a true absolute path inside is honoured, outside refused *)
-  /\ arrow_path 4 ex_tree ex_cwd gen_table_dirs ex_base [0; 10; 19; 3; 18] = Ok [10; 11; 3; 18]
-  /\ arrow_path 4 ex_tree ex_cwd gen_table_dirs ex_base [0; 10; 13; 14] = Err Security
+  /\ arrow_path 5 ex_tree ex_cwd gen_table_dirs ex_base [0; 10; 19; 3; 18] = Ok [10; 11; 3; 18]
+  /\ arrow_path 5 ex_tree ex_cwd gen_table_dirs ex_base [0; 10; 13; 14] = Err Security
   (* listing under the symlinked root: paths relative to the canonical root *)
-  /\ list_files 4 20 ex_tree ex_cwd ex_base_link [0] = Ok [[3; 18]; [16]]
+  /\ list_files 5 20 ex_tree ex_cwd ex_base_link [0] = Ok [[3; 18]; [16]]
+  (* ... and a listing ABOVE the outward directory link data/ext scans /w/tbl and /w/tbl/data only, never /w/out *)
+  /\ list_scans 5 ex_tree ex_cwd ex_base_link [0] = Ok [[10; 11]; [10; 11; 3]]
+  /\ list_files 5 20 ex_tree ex_cwd ex_base [3] = Ok [[3; 18]]
+  /\ list_files 5 20 ex_tree ex_cwd ex_base [3; 21] = Err Security
   (* entry points: a write below the root stages in the parent; a write AT the root is refused *)
-  /\ run_entry 4 ex_tree ex_cwd gen_table_dirs ex_base EpWrite [3; 20] = Ok [(AMkdirs, [10; 11; 3]); (ACreateIn, [10; 11; 3]); (AReplace, [10; 11; 3; 20])]
-  /\ run_entry 4 ex_tree ex_cwd gen_table_dirs ex_base EpWrite [3; 2] = Err IsRoot
+  /\ run_entry 5 ex_tree ex_cwd gen_table_dirs ex_base EpWrite [3; 20] = Ok [(AMkdirs, [10; 11; 3]); (ACreateIn, [10; 11; 3]); (AReplace, [10; 11; 3; 20])]
+  /\ run_entry 5 ex_tree ex_cwd gen_table_dirs ex_base EpWrite [3; 2] = Err IsRoot
   /\ In (EpWrite, GFileTarget) gen_entry_guards.
 Proof. vm_compute. repeat split; try reflexivity; auto 20. Qed.
